@@ -137,6 +137,14 @@ def ss_jobs():
                           'terminator insertion does not change length or content', **kw))
     W = wf_req(allocated=True)
     FR = ['__CPROVER_object_whole(self)', '__CPROVER_object_whole(self->storage_)']
+    SELF = SS + '_op_add_assign__const_StringStream__char_r'
+    UNFINISHED = []  # self-append does not finish (out of memory with the aliasing precondition); kept for the record, not run
+    UNFINISHED.append(ss_job('self-append', 'operator+=(const Qentem::StringStream<char> &)', SELF,
+                      dict(requires=W + ['stream == self', OLDREQ, 'self->length_ <= 0x1000000u', 'g_c == (g_k < self->length_ ? g_k : g_k - self->length_)'],
+                           ensures=wf_ens() + ['self->length_ == 2 * %s' % O_LEN, KEEP,
+                                               '(g_k >= %s && g_k < self->length_) ==> self->storage_[g_k] == self->storage_[g_k - %s]' % (O_LEN, O_LEN)],
+                           assigns=FR, frees=['self->storage_']),
+                      'appending a stream to itself doubles it and never reads released storage', cex_K=4, fixed_args={'stream': 'a_self'}, timeout=900))
     out.append(ss_job('StepBack', 'StepBack', SS + '_StepBack',
                       dict(requires=W + [OLDREQ], ensures=wf_ens() + ['self->length_ == (len <= %s ? %s - len : %s)' % (O_LEN, O_LEN, O_LEN), 'g_k < self->length_ ==> self->storage_[g_k] == g_old'],
                            assigns=['self->length_']),
